@@ -42,7 +42,7 @@ SCENARIOS = ["client_ok", "client_bad", "raw_PASS_ok", "raw_pass_ok", "raw_PaSs_
              "raw_user_limit", "raw_server_limit", "raw_errors_after_login", "raw_cut_in_pass", "client_ok_ops", "raw_slow_manager",
              "raw_failing_manager", "raw_close_while_logged_in", "client_timeout_in_pass", "raw_latin1_pass", "raw_pipelined_pass",
              "raw_pass_no_newline", "client_failing_manager", "client_hangup_after_pass", "client_acct_first", "raw_long_pass_two_pieces", "client_narrow_encoding",
-             "client_line_break"]
+             "client_line_break", "client_latin1_to_utf8_server"]
 
 
 def gen_password(rng):
@@ -196,6 +196,25 @@ async def scenario(net, hyg, name, password):
             except Exception as e:
                 outcome.append(type(e).__name__)
                 c.close()
+        elif name == "client_latin1_to_utf8_server":
+            # a latin-1 client, a password with letters beyond ASCII, a utf-8 server: the PASS line cannot be decoded there and the
+            # session ends by that exception - whatever is logged about it does not hold the line
+            try:
+                ok_ = bool(password.encode("latin-1")) and not password.isascii()
+            except UnicodeEncodeError:
+                ok_ = False
+            if not ok_:
+                outcome.append("n/a")
+            else:
+                c = aioftp.Client(path_io_factory=aioftp.MemoryPathIO, encoding="latin-1")
+                await c.connect("127.0.0.1", 2121)
+                try:
+                    await c.login("alice", password)
+                    outcome.append("ok")
+                    await c.quit()
+                except Exception as e:
+                    outcome.append(type(e).__name__)
+                    c.close()
         elif name == "client_line_break":
             # a password with a line break in it, given to the client's login(): the line protocol cannot carry it, and what
             # follows the break must not travel (and be handled, answered and logged on both sides) as a command of its own
@@ -405,8 +424,13 @@ def run_case(case):
             mon["records_seen"] += len(stream1)
             cls = "short" if len(pw) < 3 else ("plain" if pw.isalnum() else "meta")
             sigs.append(sig_of([cls, name, [c for c in SPECIALS if c in pw][:3]]))
-            if tw is not None:
-                out2, logs2, info2 = run_scenario(name, tw, case["seed"])
+            tw_ = tw
+            if name == "client_latin1_to_utf8_server":
+                # the twin keeps the letters beyond ASCII where they are (what the decoder says about the first bad byte is the same)
+                tw_ = "".join(ch if (not ch.isascii() or ch in " \t") else rng.choice([a for a in ALPHA if a != ch]) for ch in pw)
+                tw_ = tw_ if tw_ != pw else None
+            if tw_ is not None:
+                out2, logs2, info2 = run_scenario(name, tw_, case["seed"])
                 if out2 is None:
                     return W.failed(info2)
                 stream2, texts2 = logs2
@@ -414,7 +438,7 @@ def run_case(case):
                 if out1 == out2 and stream1 != stream2:
                     diff = next(((a, b) for a, b in zip(stream1, stream2) if a != b), (len(stream1), len(stream2)))
                     viol.append({"key": f"log-depends-on-password:{name}",
-                                 "msg": f"scenario {name}: logs differ between passwords {pw!r} and {tw!r} (same length): first difference {diff}",
+                                 "msg": f"scenario {name}: logs differ between passwords {pw!r} and {tw_!r} (same length): first difference {diff}",
                                  "replay_case": {"seed": case["seed"], "passwords": [pw]}})
                 base_text = "\n".join(texts2)
             else:
@@ -422,6 +446,10 @@ def run_case(case):
             needle = pw.strip()     # what the line protocol really carries of a password with blanks at its ends
             if name == "client_line_break":
                 needle = pw[max(1, len(pw) // 3):].strip()      # the part behind the break
+            if name == "client_latin1_to_utf8_server":
+                # (a byte string is shown with escapes for what is beyond ASCII: look for the longest plain run)
+                runs = sorted(__import__("re").findall(r"[!-~]{4,}", pw), key=len)
+                needle = runs[-1] if runs else ""
             if len(needle) >= 4 and needle not in base_text:
                 mon["substring_search"] += 1
                 hits = [t for t in texts1 if needle in t]
